@@ -8,16 +8,16 @@ wt=$1; seed=$2; name=$3
 cd "$wt" || exit 2
 git checkout -q -- . 
 export PYTHONPATH="$wt"
-/venv/bin/python "$seed/demo.py" >/tmp/cs_clean.txt 2>&1; clean_rc=$?
+/venv/bin/python "$seed/demo.py" >/tmp/cs_clean_$name.txt 2>&1; clean_rc=$?
 git apply "$seed/patch.diff" || { echo "APPLY FAILED"; exit 2; }
-/venv/bin/python "$seed/demo.py" >/tmp/cs_patched.txt 2>&1; patched_rc=$?
+/venv/bin/python "$seed/demo.py" >/tmp/cs_patched_$name.txt 2>&1; patched_rc=$?
 /venv/bin/python -c "import spatialpandas" ; imp_rc=$?
-/venv/bin/python -m pytest -q -p no:cacheprovider --timeout=900 --ignore=_seed --ignore=_seed_r1 --ignore=_seed_r2 --junitxml=/tmp/cs_junit.xml >/dev/null 2>&1
-reg=$(/venv/bin/python - <<'PY'
-import json, xml.etree.ElementTree as ET
+/venv/bin/python -m pytest -q -p no:cacheprovider --timeout=900 --ignore=_seed --ignore=_seed_r1 --ignore=_seed_r2 --junitxml=/tmp/cs_junit_$name.xml >/dev/null 2>&1
+reg=$(CS_NAME=$name /venv/bin/python - <<'PY'
+import json, os, xml.etree.ElementTree as ET
 base=json.load(open('/root/.vp/BASELINE.json'))
 passed=set()
-for tc in ET.parse('/tmp/cs_junit.xml').getroot().iter('testcase'):
+for tc in ET.parse('/tmp/cs_junit_'+os.environ['CS_NAME']+'.xml').getroot().iter('testcase'):
     if not any(c.tag in ('failure','error','skipped') for c in tc):
         passed.add(f"{tc.get('classname')}::{tc.get('name')}")
 print(len([t for t in base['stable_pass'] if t not in passed]))
@@ -39,5 +39,5 @@ json.dump(m, open(dst, 'w'), indent=1)
 PY
   echo "CONFIRMED -> /verif/seeded/$name"
 else
-  echo "NOT CONFIRMED"; tail -3 /tmp/cs_clean.txt /tmp/cs_patched.txt
+  echo "NOT CONFIRMED"; tail -3 /tmp/cs_clean_$name.txt /tmp/cs_patched_$name.txt
 fi
